@@ -229,6 +229,16 @@ def generate(rng, tier):
             for w in ws:
                 add(w, lang, "today-" + lang, expect={"t": "today", "delta": delta})
 
+    # ... also under non-UTC default zones on both sides of the date line: the three words share one base day
+    # (a zone whose local calendar day differs from the UTC day must not move one of them alone)
+    for zone in ("GMT+12", "GMT-12", "GMT+5:30", "GMT-8", "GMT+14", "GMT-11"):
+        pre = [{"op": "set_tz", "v": zone}]
+        for delta, ws in TODAY["en"].items():
+            add(ws[0], "en", "today-zone", pre=pre, expect={"t": "today", "delta": delta})
+        for a, b in ((-1, 0), (0, 1), (-1, 1), (1, -1)):
+            add("%s to %s" % (TODAY["en"][a][0], TODAY["en"][b][0]), "en", "today-zone-diff", pre=pre,
+                expect={"t": "diff", "a": ("today", a), "b": ("today", b)})
+
     while len(cases) < n:
         lang = "en" if rng.random() < 0.6 else "tr"
         k = rng.random()
